@@ -12,8 +12,8 @@
 EXTENDS Props
 
 (* r = floor(x / y) for y # 0, stated without division (floor toward minus infinity, as Python's //) *)
-IsFloorDiv(r, x, y) == IF y > 0 THEN r * y <= x /\ x < (r + 1) * y
-                       ELSE r * y >= x /\ x > (r + 1) * y
+IsFloorDiv(r, x, y) == IF y > 0 THEN r * y <= x /\ x - r * y < y          \* (not (r+1)*y: that product may leave 32 bits)
+                       ELSE r * y >= x /\ x - r * y > y
 Exact(x, y) == x % Abs(y) = 0
 IsRounded(r, x, y, rnd) ==      \* floor, or floor + 1 iff upward rounding was requested and the quotient is inexact
   IF rnd = "up" /\ ~Exact(x, y) THEN IsFloorDiv(r - 1, x, y) ELSE IsFloorDiv(r, x, y)
